@@ -337,6 +337,9 @@ func (em *EModel) finishFiring(r *run) {
 			em.actErrRule, em.actErrSeen = name, true
 			break
 		}
+		if a.K == "assign" {
+			r.res.probe(assignCell(em.m, a))
+		}
 		eff, err := em.m.Apply(a)
 		if err != nil {
 			em.actErrRule, em.actErrSeen = name, true
@@ -837,4 +840,36 @@ func tokenContains(t, x string) bool {
 		}
 		from = i + 1
 	}
+}
+
+
+// assignCell names the cell of the (path shape, destination kind, source type, form) matrix an
+// assignment exercises; the set of cells hit is reported in the evidence of C04.
+func assignCell(m *grl.Model, a *grl.Action) string {
+	shape := "top-level"
+	if n := len(a.Path.Steps); n > 0 {
+		last := a.Path.Steps[n-1]
+		switch {
+		case a.Path.Root == "J" && last.Sel != nil:
+			shape = "json-array"
+		case a.Path.Root == "J":
+			shape = "json-member"
+		case last.Sel != nil && last.Sel.LitK == "string", last.Sel != nil && grl.TypeOf(last.Sel) == grl.TString:
+			shape = "map-entry"
+		case last.Sel != nil:
+			shape = "slice-element"
+		case n >= 2:
+			shape = "nested-pointer-field"
+		default:
+			shape = "field"
+		}
+		if last.Sel != nil && last.Sel.K != "lit" {
+			shape += "(computed-selector)"
+		}
+	}
+	dest := "?"
+	if cur, err := m.EvalPath(a.Path); err == nil && cur != nil {
+		dest = fmt.Sprintf("%T", cur)
+	}
+	return fmt.Sprintf("assign-cell.%s.%s.%s.%s", shape, dest, grl.TypeOf(a.E), a.Op)
 }
